@@ -234,7 +234,10 @@ def take(cfg, model):
         rnd = random.Random(1)
         for v in _values(['n%d' % i for i in range(cfg['ndim'])], model, lo=1):
             lens = _lens(cfg['ndim'], v)
-            for idx in ([0], [-1, 0], [], [1, -2, 0], [rnd.randrange(-4, 4) for _ in range(3)], [3], [-4]):
+            cands = ([0], [-1, 0], [], [1, -2, 0], [rnd.randrange(-4, 4) for _ in range(3)], [3], [-4])
+            if cfg.get('irank', 1) == 2:
+                cands = ([[0, 0, 0]], [[0], [-1]], [[1, 0], [0, -1], [0, 0]], [[rnd.randrange(-3, 3) for _ in range(2)] for _ in range(3)], [[3, 0]], numpy.zeros((0, 2), int).tolist() or [[], []][:0])
+            for idx in cands:
                 what = 'take(%r, %r, axis=%r)' % (lens, idx, cfg['axis'])
                 nut = _out(lambda: numpy.take(_arg(lens), idx, cfg['axis']))
                 ref = _out(lambda: numpy.take(numpy.empty(lens), numpy.array(idx, dtype=int), cfg['axis']))
